@@ -124,6 +124,19 @@ def arcCentreG (x1 y1 x2 y2 Rx0 Ry0 phi : β) (largeArc sweep : Bool) : ArcCentr
   { cx := cx, cy := cy, Rx := Rx, Ry := Ry, cosPhi := cosPhi, sinPhi := sinPhi,
     theta1 := theta1, deltaTheta := deltaTheta }
 
+/-- the sweep adjustment (render.go:529–537) on its own -/
+def adjustG (sw : Bool) (d : β) : β :=
+  if sw then (if d < ofInt 0 then d + twoPiG else d)
+  else (if ofInt 0 < d then d - twoPiG else d)
+
+/-- `Δθ` is the sweep adjustment of the angle between two vectors (for every number type) -/
+theorem arcCentreG_deltaTheta_shape (x1 y1 x2 y2 Rx0 Ry0 phi : β) (la sw : Bool) :
+    ∃ ux uy vx vy : β,
+      (arcCentreG x1 y1 x2 y2 Rx0 Ry0 phi la sw).deltaTheta = adjustG sw (arcAngleG ux uy vx vy) := by
+  unfold arcCentreG
+  simp only []
+  exact ⟨_, _, _, _, rfl⟩
+
 /-- the point of the ellipse `c` at parameter angle `θ`: what `arcSegmentTo` passes (before the
     `float32` conversion and the viewBox-to-pixel map) as the END point of a segment ending at `θ` -/
 def arcEndG (c : ArcCentre β) (θ : β) : β × β :=
